@@ -257,6 +257,16 @@ class Type2Tag(Tag):
                 offset += 1
             if offset < tag_memory[14] * 8 + 16:
                 tag_memory[offset] = 0xFE
+            if len(data) >= 255:
+                # Length value bytes that are not in the same page as the
+                # first length byte are written together with the data
+                # (they are ignored as long as the first length byte is
+                # zero), so that the final length update is always a
+                # single page write.
+                offset = self._ndef_tlv_offset
+                for i, octet in enumerate(bytearray(pack(">H", len(data)))):
+                    if (offset + 2 + i) >> 2 != (offset + 1) >> 2:
+                        tag_memory[offset+2+i] = octet
             tag_memory.synchronize()
 
             # Write the ndef message tlv length.
